@@ -37,6 +37,8 @@ CONSTANTS
   CoreVacuum,           \* TRUE: offer direct core-level graph vacuum with arbitrary cutoffs and no restarts
   Imports, Evolves,     \* TRUE: offer VImport/VImportCommit, VEvolve
   Seeded,               \* TRUE: behaviours start with index GName created and every id of Ids added
+  SeedGraph,            \* TRUE (with Seeded): the seed also holds an edge history: a->b linked, soft-unlinked, linked
+                        \*   again, and b->g (b has the same relation incoming and outgoing, with different peers)
   GName,                \* the index whose namespace the modelled graph lives in
   Devs                  \* named deviations of the pinned code that this run models (see known_findings.json)
 
@@ -647,11 +649,31 @@ SeedOps == <<[op |-> "VCreate", n |-> GName, cfg |-> SeedCfg, mc |-> Nil, al |->
                                              meta |-> [k \in MKeys |-> Nil], res |-> "ok"]]
 SeedFile == <<CCreate(GName, SeedCfg, Nil, Nil)>> \o [j \in 1..Len(SeedIds) |-> CAdd(GName, SeedIds[j], SeedVec, NoMeta)]
 
+\* the edge history of the graph seed (timestamps 1..4)
+SeedR == CHOOSE r \in Rels : TRUE
+SeedW == CHOOSE w \in Ws : TRUE
+SeedP == CHOOSE q \in Ps : TRUE
+SeedG == LET g0 == [out |-> NoEdgeSet, in |-> NoEdgeSet]
+             g1 == LinkG(g0, "a", "b", SeedR, Nil, SeedW, SeedP, 1)
+             g2 == UnlinkG(g1, "a", "b", SeedR, Nil, FALSE, 2)
+             g3 == LinkG(g2, "a", "b", SeedR, Nil, SeedW, SeedP, 3)
+         IN LinkG(g3, "b", "g", SeedR, Nil, SeedW, SeedP, 4)
+SeedGOps == <<[op |-> "VLink", s |-> "a", t |-> "b", r |-> SeedR, inv |-> Nil, w |-> SeedW, p |-> SeedP, res |-> "ok"],
+              [op |-> "VUnlink", s |-> "a", t |-> "b", r |-> SeedR, inv |-> Nil, hard |-> FALSE, res |-> "ok"],
+              [op |-> "VLink", s |-> "a", t |-> "b", r |-> SeedR, inv |-> Nil, w |-> SeedW, p |-> SeedP, res |-> "ok"],
+              [op |-> "VLink", s |-> "b", t |-> "g", r |-> SeedR, inv |-> Nil, w |-> SeedW, p |-> SeedP, res |-> "ok"]>>
+SeedGFile == <<CLink("a", "b", SeedR, Nil, SeedW, SeedP, 1), CUnlink("a", "b", SeedR, Nil, FALSE, 2),
+               CLink("a", "b", SeedR, Nil, SeedW, SeedP, 3), CLink("b", "g", SeedR, Nil, SeedW, SeedP, 4)>>
+AllSeedOps == IF Seeded THEN (IF SeedGraph THEN SeedOps \o SeedGOps ELSE SeedOps) ELSE <<>>
+
 Init ==
-  /\ snap = <<>> /\ clock = 0 /\ dev = {} /\ delat = [x \in GNodes |-> 0] /\ dirty = FALSE
+  /\ snap = <<>> /\ dev = {} /\ delat = [x \in GNodes |-> 0] /\ dirty = FALSE
   /\ IF Seeded
-     THEN mem = [EmptyMem EXCEPT !.ix[GName] = SeedIx] /\ file = SeedFile /\ ops = SeedOps
-     ELSE mem = EmptyMem /\ file = <<>> /\ ops = <<>>
+     THEN IF SeedGraph
+          THEN /\ mem = [EmptyMem EXCEPT !.ix[GName] = SeedIx, !.out = SeedG.out, !.in = SeedG.in]
+               /\ file = SeedFile \o SeedGFile /\ ops = SeedOps \o SeedGOps /\ clock = 4
+          ELSE mem = [EmptyMem EXCEPT !.ix[GName] = SeedIx] /\ file = SeedFile /\ ops = SeedOps /\ clock = 0
+     ELSE mem = EmptyMem /\ file = <<>> /\ ops = <<>> /\ clock = 0
 
 Next ==
   \/ \E k \in Keys, v \in KVals : KVSet(k, v)
@@ -746,7 +768,7 @@ Prop_ReopenIdentity ==
 (* Model-checking plumbing: bounds, the view, and the corpus channel.      *)
 (***************************************************************************)
 Bound == /\ Len(file) <= MaxFile
-         /\ Len(ops) <= MaxOps + (IF Seeded THEN Len(SeedOps) ELSE 0)
+         /\ Len(ops) <= MaxOps + Len(AllSeedOps)
          /\ Cardinality({i \in 1..Len(ops) : ops[i].res = "err"}) <= MaxRej
          /\ \A e \in mem.out : Cardinality({x \in mem.out : x.s = e.s /\ x.t = e.t /\ x.r = e.r}) <= MaxVer
 
